@@ -705,6 +705,10 @@ class ExponentialBinning(BinningBase):
         super(ExponentialBinning, self).__init__(
             includes_right_edge=includes_right_edge, adaptive=adaptive
         )
+        if not log_width > 0:
+            raise ValueError(f"Bins must be in rising order: log_width={log_width}.")
+        if bin_count < 0:
+            raise ValueError(f"Cannot have a negative number of bins: {bin_count}.")
         self._log_min = log_min
         self._log_width = log_width
         self._bin_count = bin_count
